@@ -11,6 +11,7 @@ EXPLANATION = ("Props/C05.v is the decision table over the derived tls.Config (v
                "required as configured); x509/TLS are represented by their acceptance conditions. Every cell of the finite matrix is "
                "run against the real code and must have the outcome the model predicts and the property demands.")
 TRUSTED = ["crypto/tls and crypto/x509 (hypotheses: a peer is accepted iff the documented conditions on the two tls.Configs hold)",
+           "kcp-go's AES block cipher with its checksum: packets under a different key are dropped (hypothesis behind secret_admits)",
            "StartTLS over the DNS carrier is not in the matrix of this check (the DNS carrier is exercised in C07/C11)"]
 EXHAUSTIVE = True
 RUN_TIMEOUT = 1800
@@ -33,6 +34,18 @@ def cases(tier, rng):
                                 continue
                             line = "c05 %s %s %d %s %d %d" % (k, sc, ins, cc, req, must)
                             cs.append({"line": line, "key": line, "tags": {"carrier": k, "scert": sc, "ins": ins, "ccert": cc, "req": req, "must": must}})
+    # a UDP endpoint protected by a shared secret: equal and different secrets, one side without
+    secrets = ["none", "abc", "abd", "ABC", "ab", "abcd", "p%40ss%3Aword", "x" * 40]
+    if tier == "thorough":
+        secrets += ["%d" % rng.below(10 ** 9) for _ in range(4)]
+    quick_pairs = {("none", "none"), ("abc", "abc"), ("abc", "abd"), ("abc", "ABC"), ("abc", "none"), ("none", "abc"), ("ab", "abc"),
+                   ("p%40ss%3Aword", "p%40ss%3Aword"), ("x" * 40, "x" * 40)}
+    for a in secrets:
+        for b in secrets:
+            if tier != "thorough" and (a, b) not in quick_pairs:
+                continue     # every refused attempt costs the handshake bound
+            line = "c05s %s %s" % (a, b)
+            cs.append({"line": line, "key": line, "tags": {"carrier": "udp-secret", "ssecret": a, "csecret": b}})
     return cs
 
 
@@ -41,6 +54,20 @@ def oracle(case, impl):
     p = impl.split()
     if not p or p[0] in ("panic", "died", "timeout", "harness-error"):
         return [("crash", "cell crashed: %s -> %s" % (case["line"], impl[:100]))]
+    if t["carrier"] == "udp-secret":
+        same = t["ssecret"] == t["csecret"]
+        est = p[:2] == ["connect", "ok"]
+        if "hang" in p:
+            return [("hang;carrier=udp-secret", "connection attempt neither succeeded nor failed: " + case["line"])]
+        if p[0] == "startup-err":
+            return [("secret-endpoint-does-not-start", "a UDP endpoint with a shared secret could not start: " + case["line"])]
+        if est and not same:
+            return [("wrong-secret-admitted", "the endpoint's secret is '%s' but a client holding '%s' was admitted" % (t["ssecret"], t["csecret"]))]
+        if not est and "hits" in p and p[p.index("hits") + 1] != "0":
+            return [("target-reached-without-session", "an application byte reached a target although no session was established: " + case["line"])]
+        if same and not est:
+            return [("right-secret-refused", "client and endpoint hold the same secret but no session was established: " + case["line"])]
+        return []
     k, sc, ins, cc, req, must = t["carrier"], t["scert"], t["ins"], t["ccert"], t["req"], t["must"]
     tls = k in ("tls-socket", "wss") or (sc != "none")
     established = p[:2] == ["connect", "ok"]
@@ -84,6 +111,6 @@ META = {
                   "certificates are enforced. The finite decision matrix is also run exhaustively, cell by cell, against real servers and "
                   "clients on loopback.",
     "level_note": "crypto/tls and x509 enter as acceptance hypotheses (client accepts iff skip-verify or chain+name+validity; server accepts iff "
-                  "no client certificate required or a CA-signed one presented). The UDP shared secret is a separate finding (see evidence).",
+                  "no client certificate required or a CA-signed one presented). The UDP shared secret: Props c05_shared_secret over secret_admits (kcp's cipher is a hypothesis), every pair of a small secret set is run against a real KCP endpoint.",
     "technique": "Coq decision-table proof + exhaustive end-to-end matrix against the real code",
 }
